@@ -2157,6 +2157,15 @@ func (s *Sim) doCall(fr *Frame, in ssa.Instruction, c *ssa.CallCommon, st *State
 	}
 	fnv, args, _ := s.resolveCallee(fr, c)
 	s.event(fr, st, "call:"+s.P.CalleeName(c), in)
+	// an atomic write of a named field, wherever it is made (in a helper or spelled out in its caller)
+	if !c.IsInvoke() && len(c.Args) > 0 {
+		switch n := s.P.CalleeName(c); {
+		case strings.HasPrefix(n, "(*sync/atomic.") && (strings.HasSuffix(n, ").Add") || strings.HasSuffix(n, ").CompareAndSwap") || strings.HasSuffix(n, ").Store") || strings.HasSuffix(n, ").Swap")):
+			if f := FieldOfAddr(c.Args[0]); f != "" {
+				s.event(fr, st, "atomicwrite:"+f, in)
+			}
+		}
+	}
 	if fnv.K == KFunc {
 		callee := fnv.Fn
 		name := callee.String()
